@@ -1,6 +1,7 @@
 CONSTANTS
   MaxLen = 6
   Emit = TRUE
+  AllStrings = FALSE
 SPECIFICATION Spec
 INVARIANTS UnderscoresOK ShapeOK EmitOK
 CHECK_DEADLOCK FALSE
